@@ -198,7 +198,8 @@ fn typed_laws<A: Archetype>(ctx: &Ctx, e: EntityAny, with_panics: bool, inp: &In
             let (k, g) = e.raw();
             for (k2, g2) in [(k, g ^ 1), (k, g ^ 0x8000_0000), (k ^ 0x100, g)] {
                 if g2 != 0 {
-                    if let Ok(o) = Entity::<A>::try_from(EntityAny::from_raw((k2, g2)).unwrap()) {
+                    let Some(other) = raw_or_report(ctx, k2, g2, *inp) else { return };
+                    if let Ok(o) = Entity::<A>::try_from(other) {
                         chk!(ctx, o != t && o.into_any() != e, "C14", "distinct-bits-compare-equal:typed", *inp, "typed handles {:?} and {:?} compare equal", t, o);
                     }
                 }
@@ -225,6 +226,17 @@ fn typed_laws<A: Archetype>(ctx: &Ctx, e: EntityAny, with_panics: bool, inp: &In
     }
 }
 
+/// from_raw of a value with a non-zero generation must succeed (C14); a refusal is reported, never unwrapped.
+fn raw_or_report(ctx: &Ctx, key: u32, gen: u32, inp: Inp) -> Option<EntityAny> {
+    match EntityAny::from_raw((key, gen)) {
+        Ok(e) => Some(e),
+        Err(err) => {
+            ctx.report("C14", "from-raw-rejects-valid", format!("from_raw(({}, {})) = Err({:?})", key, gen, err), inp);
+            None
+        }
+    }
+}
+
 fn c14_value(ctx: &Ctx, key: u32, gen: u32, with_panics: bool) {
     beacon::mark(14, 0, key, gen, with_panics as u32);
     count_eval(ctx);
@@ -245,7 +257,7 @@ fn c14_value(ctx: &Ctx, key: u32, gen: u32, with_panics: bool) {
     let byte = key as u8;
     chk!(ctx, e.archetype_id() == byte && e.into_any() == e, "C14", "archetype-id", inp, "archetype_id() = {} for key {:#x}", e.archetype_id(), key);
     // Eq / Hash: equal to its reconstruction, unequal to every single-field neighbour
-    let same = EntityAny::from_raw(e.raw()).unwrap();
+    let Some(same) = raw_or_report(ctx, e.raw().0, e.raw().1, inp) else { return };
     chk!(ctx, same == e && h1(&same) == h1(&e) && h2(&same) == h2(&e), "C14", "eq-hash", inp, "a handle and its reconstruction differ in ==/hash");
     let mut neighbours: Vec<(u32, u32)> = vec![(key ^ 1, gen), (key ^ 0x80, gen), (key ^ 0x100, gen), (key ^ 0x8000_0000, gen), (key, gen ^ 1), (key, gen ^ 0x8000_0000), (gen, key)];
     if with_panics {
@@ -257,7 +269,7 @@ fn c14_value(ctx: &Ctx, key: u32, gen: u32, with_panics: bool) {
     }
     for (k2, g2) in neighbours {
         if g2 != 0 && (k2, g2) != (key, gen) {
-            let o = EntityAny::from_raw((k2, g2)).unwrap();
+            let Some(o) = raw_or_report(ctx, k2, g2, inp) else { return };
             chk!(ctx, o != e, "C14", "distinct-bits-compare-equal", inp, "{:?} == {:?}", e, o);
         }
     }
@@ -567,7 +579,7 @@ fn c03_value(ctx: &Ctx, fx: &Fixed, key: u32, gen: u32, world_level: bool) {
     beacon::mark(3, fx.which as u32, key, gen, world_level as u32);
     count_eval(ctx);
     let inp = Inp { state: fx.name, key, gen, direct_index: 0, archetype: 0 };
-    let e = EntityAny::from_raw((key, gen)).unwrap();
+    let Some(e) = raw_or_report(ctx, key, gen, inp) else { return };
     let w = &fx.world;
     c03_typed::<Aa>(ctx, fx, &w.aa, e, |a, i| a.borrow_slice::<Ka>().get(i).map(|c| c.0), &inp);
     c03_typed::<Bb>(ctx, fx, &w.bb, e, |a, i| a.borrow_slice::<Ka>().get(i).map(|c| c.0), &inp);
